@@ -185,4 +185,30 @@ Section Override.
   (* readConfig as a whole, the map iterated in the order arg_map produces *)
   Definition read_config (root : string) (s : schema) (f : string -> option value) (tokens : list string) : option config :=
     option_map (fixup root) (effective s f (arg_map tokens)).
+  (* ---------- run.go:90-96: a project WITHOUT config.yml ----------
+     if os.Stat(config.yml) fails, Run writes NewDefaultConfig() to it and only then calls readConfig.
+     The state of the project between runs is the decoded content of config.yml (None: no file);
+     the file generated from the defaults decodes to the defaults. *)
+  Definition default_file (s : schema) : string -> option value := fun k => get k s.
+
+  Definition autogen (s : schema) (st : option (string -> option value)) : string -> option value :=
+    match st with Some f => f | None => default_file s end.
+
+  (* one Run: project file afterwards, effective configuration of this run *)
+  Definition run_step (s : schema) (st : option (string -> option value)) (entries : list (string * string))
+    : option (string -> option value) * option config :=
+    (Some (autogen s st), effective s (autogen s st) entries).
+
+  (* several Runs on the same project one after the other (same session or later processes) *)
+  Fixpoint run_seq (s : schema) (st : option (string -> option value)) (runs : list (list (string * string)))
+    : list (option config) :=
+    match runs with
+    | [] => []
+    | es :: r => let '(st', c) := run_step s st es in c :: run_seq s st' r
+    end.
+
+  (* the configuration the LAST of the batch lines [hist ++ [tokens]] runs with, fix-ups included *)
+  Definition read_config_seq (root : string) (s : schema) (st : option (string -> option value))
+             (hist : list (list string)) (tokens : list string) : option config :=
+    option_map (fixup root) (last (run_seq s st (map arg_map (hist ++ [tokens]))) None).
 End Override.
